@@ -15,8 +15,12 @@ package fiber
 //@ fn reqHeader(c ref, key string, ep int) string
 //@ fn parseAddrHost(s string) string
 
+// C06: the copying variant of the conversion (installed by New iff config.Immutable) returns a stable string.
+//@ fn stable(s string) bool
+//@ fn copies(f ref) bool
 //@ func App.getString assumed pure
 //@   ensures result == str(arg0)
+//@   ensures [C06] copying-variant: copies(fnvalue) ==> stable(result)
 
 //@ func (*DefaultCtx).Get assumed pure
 //@   defines result == reqHeader(c, key, epoch)
@@ -144,8 +148,11 @@ package fiber
 //@   ensures in-range: 0 <= result && result <= len(s)
 //@   ensures named-no-slash: !segment.IsGreedy && (segment.IsLast || result < len(s)) ==> noSlash(s[:result])
 
+// parserMatches: the answer of getMatch (a deterministic function of the parser and the paths).
+//@ fn parserMatches(p ref, dp string, path string, partial bool, ep int) bool
 //@ func (*routeParser).getMatch
 //@   props C02 C05 C07
+//@   defines result == parserMatches(parser, detectionPath, path, partialCheck, epoch)
 //@   requires wf-parser: wfParser(parser)
 //@   requires dp-folds-path: foldPrefix(detectionPath, path)
 //@   modifies elems(params)
@@ -159,11 +166,47 @@ package fiber
 //@     invariant checked-so-far: forall(j, 0, rangeindex + 1, checkOK(segment.Constraints[j], params[paramsIterator], epoch))
 //@   ensures values-ok: result ==> forall(s, 0, len(parser.segs), parser.segs[s].IsParam ==> valueOK(parser.segs[s], params[pcount(parser, s)]))
 
+// matches(r, dp, p, ep): the answer of Route.match, a deterministic function of the route and the two paths.
+//@ fn matches(r ref, dp string, p string, ep int) bool
 //@ func (*Route).match
 //@   props C02 C01 C05
+//@   defines result == matches(r, detectionPath, path, epoch)
 //@   requires wf-parser: wfParser(r.routeParser)
 //@   requires dp-folds-path: foldPrefix(detectionPath, path)
 //@   modifies elems(params)
-//@   ensures params-imply-parser: result && len(r.Params) > 0 && !r.star && !(r.root && len(detectionPath) == 1 && detectionPath[0] == '/') ==> called((*routeParser).getMatch) && last((*routeParser).getMatch)
+//@   ensures params-imply-parser: result && len(r.Params) > 0 && !r.star && !(r.root && len(detectionPath) == 1 && detectionPath[0] == '/') ==> parserMatches(r.routeParser, detectionPath, path, r.use, epoch)
 //@   ensures values-ok: result && len(r.Params) > 0 && !r.star && !(r.root && len(detectionPath) == 1 && detectionPath[0] == '/') ==>
 //@ ..   forall(s, 0, len(r.routeParser.segs), r.routeParser.segs[s].IsParam ==> valueOK(r.routeParser.segs[s], params[pcount(r.routeParser, s)]))
+
+// ---------------------------------------------------------------------------------------------
+// C01: dispatch = first match in registration order; the scan resumes where it stopped
+// ---------------------------------------------------------------------------------------------
+
+//@ macro wfRoute(r) = r != nil && wfParser(r.routeParser) && (!r.mount ==> len(r.Handlers) > 0)
+// every bucket of the lookup index holds well-formed routes
+//@ macro wfTrees(app) = forallI(m, forallI(h, 0 <= m && m < len(app.treeStack) ==> forall(i, 0, len(app.treeStack[m][h]), wfRoute(app.treeStack[m][h][i]))))
+//@ macro dpOf(c) = str(c.detectionPath)
+//@ macro pathOf(c) = str(c.path)
+
+//@ func (*App).methodExist assumed
+//@   modifies c.indexRoute, heap(E_string), respHdr, respSet
+
+//@ func NewError assumed pure fresh
+
+// next: scans the bucket from the position after c.indexRoute, skips mount markers and routes that do not
+// match, and runs the first handler of the first route that matches; nothing matched => error.
+//@ func (*App).next
+//@   props C01
+//@   requires method-known: 0 <= c.methodInt && c.methodInt < len(app.treeStack)
+//@   requires trees-wf: wfTrees(app)
+//@   requires paths-wf: foldPrefix(dpOf(c), pathOf(c))
+//@   requires resume-position: c.indexRoute >= -1
+//@   loop 1
+//@     invariant position: old(c.indexRoute) <= c.indexRoute
+//@     invariant skipped-do-not-match: forall(k, old(c.indexRoute) + 1, c.indexRoute + 1, tree[k].mount || !matches(tree[k], dpOf(c), pathOf(c), epoch))
+//@     invariant paths-kept: dpOf(c) == old(dpOf(c)) && pathOf(c) == old(pathOf(c)) && c.matched == old(c.matched)
+//@   atcall Route.Handlers$elem: runs-first-match: !route.mount && matches(route, old(dpOf(c)), old(pathOf(c)), epoch) && tree[c.indexRoute] == route &&
+//@ ..    old(c.indexRoute) < c.indexRoute && forall(k, old(c.indexRoute) + 1, c.indexRoute, tree[k].mount || !matches(tree[k], old(dpOf(c)), old(pathOf(c)), epoch))
+//@   atcall Route.Handlers$elem: context-points-at-route: c.route == route && c.indexHandler == 0 && as(arg0, *DefaultCtx) == c
+//@   atcall Route.Handlers$elem: matched-flag: c.matched == (old(c.matched) || !route.use)
+//@   ensures no-match-is-an-error: !called(Route.Handlers$elem) ==> !result0 && result1 != nil
